@@ -1429,7 +1429,17 @@ class SymRange:
         return z3.If(d > 0, (d + (-self.step - 1)) / (-self.step), 0)
 
     def conc_count(self, p: Path) -> Optional[int]:
-        return p.fixed_value(self.count_t())
+        v = p.fixed_value(self.count_t())
+        if v is not None or p.no_branch:
+            return v
+        # a count the path condition bounds by a small constant: one path per count (complete case split, no invariant needed)
+        c = self.count_t()
+        if p.entails(c <= 8):
+            for k in range(0, 9):
+                if p.branch(c == k, f"range-count{k}"):
+                    return k
+            raise DeadPath()
+        return None
 
 
 class SuperProxy:
